@@ -133,6 +133,7 @@ func ParseSpec(f []string) (*Spec, error) {
 	}
 	s := &Spec{Scheme: f[0], Route: f[1], Variant: f[2], ID: uint32(id), Params: f[4], Key: hx.UH(f[5])}
 	switch s.Scheme {
+	case "pv":
 	case "etm":
 		p := strings.Split(s.Params, ".")
 		if len(p) != 4 {
